@@ -23,8 +23,16 @@ ASSUMPTIONS = ['Reference optimum: mc/refmodel/glasso_admm.py solved to 1e-13, a
                'tolerance on the objective 2e-4 (1 + |obj|): the installed graphical lasso stops at an absolute dual gap of 1e-4, which bounds its '
                'sub-optimality; runs that report non-convergence are counted, not judged.',
                'Failure clause: any outcome must be RuntimeError or a finite symmetric positive definite matrix.']
+# (an SPD array with condition number 1e10 was tried as a further option: on the unchanged tree LSML's fixed step grid and the
+# graphical lasso both stop being reliable there, so it cannot separate a defect from solver limits and is not part of the alphabet)
 PRIORS = ['identity', 'covariance', 'random', 'array', 'array_F']      # array_F: the same SPD array, Fortran-ordered
 SPARS = [1e-3, 1e-2, 1e-1, 1.0]
+
+
+def illcond(d):
+    """SPD array with condition number 1e10 (eigen-directions from the fixed SPD matrix, eigenvalues log-spaced 1e-5..1e5)."""
+    _, Q = np.linalg.eigh(data.spd(d))
+    return (Q * np.logspace(-5, 5, d)).dot(Q.T)
 
 
 def V(site, clause, msg, triggers=(), **detail):
